@@ -4,8 +4,8 @@
          out[s+1] = idx
    kept so that the refutation of the memory-safety claim for the old code
    stays machine-checked (finding D3, repaired in /repo by commit 4b26855). *)
-From Coq Require Import List Bool Arith.
-From QE Require Import C09.Model.
+From Coq Require Import QArith List Bool Arith.
+From QE Require Import Base.Num C09.Solve C09.Model.
 Import ListNotations.
 
 Fixpoint gai_while_old (fuel : nat) (sidx : list nat) (s idx : nat) : rres nat :=
@@ -53,4 +53,28 @@ Proof. exists 3%nat, [0;0]%nat. split; vm_compute; reflexivity. Qed.
 (* the repaired loop on the same input *)
 Lemma generate_a_indptr_repaired_witness :
   generate_a_indptr 3 [0;0]%nat = RVal [0;2;2;2]%nat.
+Proof. vm_compute. reflexivity. Qed.
+
+(* ------------------------------------------------------------------ *)
+(* Pinned (pre-d7690eb) unsorted branch of DiscreteDP.__init__: the coo matrix was built
+   without shape=, so a_indptr had max(s_indices)+2 entries and the loop
+     for i in range(num_states): for j in range(a_indptr[i], a_indptr[i+1])
+   indexed past it when the trailing state(s) have no pair: IndexError, not ValueError
+   (finding D10, repaired in /repo by commit d7690eb). *)
+Definition csr_indptr_old (n : nat) (sidx : list nat) : list nat :=
+  map (count_lt sidx) (seq 0 (list_max sidx + 2)).
+Definition mk_sa_old {T} {NT : Num T} := mk_sa_gen (T:=T) csr_indptr_old.
+
+(* n = 3, unsorted pairs (1,0),(0,0): state 2 has no pair; the old constructor reads a_indptr[3] *)
+Lemma constructor_unsorted_trailing_empty_refuted :
+  exists n sidx aidx R Qm beta,
+    has_sorted_sa_indices sidx aidx = false /\ ~ In (n - 1)%nat sidx /\
+    mk_sa_old (T:=Q) n sidx aidx R Qm beta = CIndexError 3.
+Proof.
+  exists 3%nat, [1;0]%nat, [0;0]%nat, [Fin 0%Q; Fin 0%Q], [[1;0;0];[1;0;0]]%Q, (1#2)%Q.
+  split; [reflexivity|]. split; [cbn; intuition discriminate|]. vm_compute. reflexivity.
+Qed.
+
+Lemma constructor_unsorted_trailing_empty_repaired_witness :
+  mk_sa (T:=Q) 3 [1;0]%nat [0;0]%nat [Fin 0%Q; Fin 0%Q] [[1;0;0];[1;0;0]]%Q (1#2)%Q = CValueError.
 Proof. vm_compute. reflexivity. Qed.
